@@ -55,6 +55,9 @@ template <class X, size_t DS> static std::string hist(const std::vector<std::str
         else if (o == "F") { uint8_t d[DS]; c->finish(d); if (!first) out += ","; out += hx(d, DS); first = false; }
         else if (o[0] == 'U') { Bytes m = bx(o.substr(2)); c->update(m.data(), m.size()); }
         else if (o[0] == 'J') c->inject(strtoull(o.c_str() + 2, 0, 10));
+        else if (o == "K") { X* c2 = new X(*c); delete c; c = c2; }                      // continue on a copy of the context (the original is destroyed)
+        else if (o == "k") { X* c2 = new X(*c); uint8_t d[DS]; c2->finish(d); delete c2;  // finish a copy, keep using the original
+                             if (!first) out += ","; out += hx(d, DS); first = false; }
         else throw std::logic_error("hist op");
     }
     delete c;
@@ -119,6 +122,9 @@ static std::string hmachist(TypeHash ty, const std::vector<std::string>& ops) {
                         c->final(d, ds); if (!first) out += ","; out += hx(d, ds); first = false; }
         else if (o[0] == 'I') { Bytes k = bx(o.substr(2)); c->init(k.data(), k.size()); }
         else if (o[0] == 'U') { Bytes m = bx(o.substr(2)); c->update(m.data(), m.size()); }
+        else if (o == "K") { HmacContext* c2 = new HmacContext(*c); delete c; c = c2; }
+        else if (o == "k") { HmacContext* c2 = new HmacContext(*c); uint8_t d[64]; size_t ds = ty == TypeHash::SHA1 ? 20 : ty == TypeHash::SHA256 ? 32 : 64;
+                             c2->final(d, ds); delete c2; if (!first) out += ","; out += hx(d, ds); first = false; }
         else throw std::logic_error("hmachist op");
     }
     delete c;
